@@ -296,11 +296,17 @@ def parse_items(src, lo, hi, toks=None, in_fn=False):
                     while r3 < len(idx) and idx[r3] <= close:
                         r3 += 1
                     continue
+                r4 = r3
+                while r4 < len(idx) and idx[r4] <= close:
+                    r4 += 1
+                if kw == 'fn' and r4 < len(idx) and toks[idx[r4]].kind == 'punct' and toks[idx[r4]].text in (',', '&', '|', '=', '+', '-', '.', '?', ')', ']', '<', '>', '*', '/'):
+                    # a brace group inside a Verus spec clause (`match ret { .. },`): not the body
+                    r3 = r4
+                    continue
                 body_open = tt.start
                 body_close = toks[close].start
                 end_off = toks[close].end
-                while r3 < len(idx) and idx[r3] <= close:
-                    r3 += 1
+                r3 = r4
                 break
             if tt.kind == 'punct' and tt.text == ';':
                 end_off = tt.end
